@@ -687,7 +687,7 @@ PROPS["C19"] = dict(
 )
 
 PROPS["C01"] = dict(
-    lean_targets=["SJ.Props.C01", "SJ.Props.C01Iff", "SJ.Props.C01Ap", "SJ.Audit.C01"],
+    lean_targets=["SJ.Props.C01", "SJ.Props.C01Iff", "SJ.Props.C01Ap", "SJ.Props.C01Rv", "SJ.Audit.C01"],
     configs=dict(quick=["d", "ap", "rv"], thorough=["d", "ap", "rv", "fr", "po", "ud"]),
     gen_keys=["error.", "de."],
     rule=PARSE_RULE + " Accept/reject of the crate is compared with the model and with the independent recursive-descent "
@@ -703,8 +703,16 @@ PROPS["C01"] = dict(
                  "the property (valid JSON rejected / misread) and stays listed as open finding C01-ap-private-number-token: the "
                  "specification reports it (tightened signature: only the S lines with the outcomes the reading produces), the model "
                  "now reproduces it",
-                 "raw_value: the analogous reading of $serde_json::private::RawValue (the string is re-parsed as JSON) is NOT modelled: "
-                 "open finding C01-rv-private-rawvalue-token, whose signature still covers the model disagreements on those inputs"],
+                 "raw_value: a third model, Model.MachineRv = MachineAp + the reading of an object whose first key decodes to "
+                 "$serde_json::private::RawValue (value/de.rs visit_map RawValue arm, raw.rs BoxedFromString = deserialize_str with a visitor "
+                 "that has visit_str only, then crate::from_str on the DECODED string - a fresh Deserializer: &str source, fresh recursion "
+                 "budget, the same features, so both token readings apply again inside - its error through de::Error::custom: same "
+                 "message, category Data, the nested text's own line / column; then end_map). The nested parse is a parameter of the step "
+                 "function; parseTop ties the knot by structural recursion on a fuel = length + 1 and c01_rv_recursion proves the fuel "
+                 "never runs out (a decoded string is strictly shorter than its text). The correspondence run uses MachineRv for the Value "
+                 "target whenever the configuration tag has rv (0 disagreements with the full outcome - message, category, line, column, "
+                 "three sources - tags private-token* and raw-token* included). The behaviour deviates from the property and stays listed "
+                 "as open finding C01-rv-private-rawvalue-token (tightened signature: only S lines with the outcomes the reading produces)"],
     partial=["c01_ap_accepts_iff (the accepted language of the faithful model under arbitrary_precision = RFC 8259 texts with the side "
              "conditions in which every token-first object is { token : \"number literal\" }) states the shape clause on the BYTES "
              "(Spec.PrivateToken.TokenObjectsShaped: every string literal that stands directly after a { - the lexical scan is "
@@ -713,8 +721,13 @@ PROPS["C01"] = dict(
              "(it needs the unambiguity of the grammar). Tree-level formulations are proved for two families "
              "(c01_ap_accepts_iff_partial): inputs in which no first key decodes to the token and documents that are themselves a "
              "token-first object",
-             "raw_value: objects whose first key is the private RawValue token are outside both models (open finding; the models side "
-             "with RFC 8259, the crate does not)"],
+             "raw_value: the accepted language of the faithful model has no closed-form statement like c01_ap_accepts_iff: "
+             "c01_rv_token_object / c01_rv_token_language characterise a raw-token object RECURSIVELY (accepted iff ws : ws string ws } "
+             "and the decoded string is accepted by the parser itself in the environment of the nested from_str), c01_rv_conservative / "
+             "c01_rv_accepts_iff_tokenfree cover every input without a raw-token first key, c01_rv_sound gives the soundness half for "
+             "every input (the OUTER text is RFC 8259 JSON meeting the side conditions); a language-level iff for inputs that mix "
+             "ordinary structure with raw-token objects at depth (the analogue of TokenObjectsShaped, with 'decodes to an accepted "
+             "text' in place of 'decodes to a number literal') is not stated"],
     technique="Lean 4 theorem c01_accepts_iff: the byte-step machine accepts exactly an inductive RFC 8259 grammar plus the stated side "
               "conditions (completeness by induction on derivations, soundness by a zipper invariant over every step) + "
               "exhaustive-token differential run against the crate and an independent recogniser",
@@ -740,16 +753,35 @@ PROPS["C01"] = dict(
                "machine's control flow never inspects collected values, step1_eqv) and c01_ap_accepts_iff (the faithful model accepts "
                "exactly the RFC 8259 texts meeting the side conditions in which every string literal directly after a { that decodes "
                "to the token is followed by ws : ws \"number literal\" ws } - a clause on the bytes, mentioning neither model nor run; "
-               "c01_ap_accepts_iff_run: the same with the clause on the machine's run).",
+               "c01_ap_accepts_iff_run: the same with the clause on the machine's run). "
+               "Under raw_value (Props/C01Rv.lean, model Model.MachineRv, every combination with the other features): c01_rv_recursion "
+               "(parseRv renv bs = run (parseRv renv.inner) renv init 0 bs: the nested parser of the model IS the model - fuel-free "
+               "recursion equation; c01_rv_fuel_irrelevant), c01_rv_off (without the feature MachineRv = MachineAp), "
+               "c01_rv_conservative (no string literal directly after a { decodes to the RawValue token - Spec.PrivateTokenRv."
+               "hasRawTokenFirstKey, the same lexical scan with the other token - => MachineRv = MachineAp: value, error, message class, "
+               "position; with c01_ap_conservative: = the machine, c01_rv_conservative_machine(_noap); hence "
+               "c01_rv_accepts_iff_tokenfree, c02_rv_value_is_canon_tokenfree), c01_rv_token_object (at any depth, after a first key "
+               "equal to the raw token the run succeeds iff the rest is ws : ws string ws }, the string - valid UTF-8 on byte sources - "
+               "decodes to a text that parseRv renv.inner accepts, and continues with THAT TEXT's value in place of the object), "
+               "c01_rv_token_language (a whole document that is such an object; its value is the nested text's value), "
+               "c01_rv_token_value_not_string (invalid type ... expected raw value, Data, at the bracket / one later for readers), "
+               "c01_rv_token_nested_error (the nested parse's failure escalated: same message, Data, ITS line and column; innermost "
+               "position kept through several levels), c01_rv_token_extra_member, c01_rv_token_eof, c01_rv_sound (EVERY input, every "
+               "feature combination: what the faithful model accepts is an RFC 8259 text meeting the side conditions - by a "
+               "simulation against the machine that extends MachineAp's). Kernel-evaluated examples: nested tokens two levels deep, "
+               "the Number token inside a raw string (both features), the fresh recursion budget (126 + 127 containers accepted, "
+               "128 inside the string rejected with the nested error at column 128).",
     level_note="Trusted: Lean kernel + 3 standard axioms; extract.py (depth 128, whitespace set, literals, number::TOKEN and the "
                "fingerprints of KeyClassifier / visit_map / NumberFromString / end_map / Number::from_str regenerated); harness/driver; "
-               "the hand-written models Model.Machine and Model.MachineAp validated by correspondence (0 disagreements over all "
-               "sources/configs except the unmodelled raw_value token). The crate's reading of the private Number token is a "
-               "deviation from the property (open finding), now a theorem about the model instead of a gap of it.",
+               "the hand-written models Model.Machine, Model.MachineAp and Model.MachineRv validated by correspondence (0 disagreements "
+               "over all sources/configs; raw::TOKEN, BoxedFromString's expecting text and the fingerprints of the RawValue arm, "
+               "BoxedFromString, from_str / from_trait and de::Error::custom / make_error regenerated, keys de.token.raw.*). The crate's "
+               "readings of the private Number and RawValue tokens are deviations from the property (open findings), now theorems "
+               "about the models instead of gaps of them.",
 )
 
 PROPS["C02"] = dict(
-    lean_targets=["SJ.Props.C02", "SJ.Props.C02Map", "SJ.Props.C06Int", "SJ.Props.C01Iff", "SJ.Props.C01Ap", "SJ.Audit.C02"],
+    lean_targets=["SJ.Props.C02", "SJ.Props.C02Map", "SJ.Props.C06Int", "SJ.Props.C01Iff", "SJ.Props.C01Ap", "SJ.Props.C01Rv", "SJ.Audit.C02"],
     configs=dict(quick=["d", "po", "ap"], thorough=["d", "po", "fr", "ap"]),
     gen_keys=["error.", "de."],
     rule=PARSE_RULE + " The returned Value (tagged tree: integers exact, floats as bit patterns, object keys in iteration order) "
@@ -758,7 +790,10 @@ PROPS["C02"] = dict(
     assumptions=["float values are whatever the configured conversion returns: their accuracy is C07/C08, not C02",
                  "arbitrary_precision: the correspondence run uses Model.MachineAp (the machine + the private Number token reading of "
                  "Value's visitor) for the Value target; c02_denotes / c02_value_is_canon are theorems about Model.Machine and transfer "
-                 "to MachineAp on every input without a token first key (c01_ap_conservative, c02_ap_value_is_canon_tokenfree)"],
+                 "to MachineAp on every input without a token first key (c01_ap_conservative, c02_ap_value_is_canon_tokenfree)",
+                 "raw_value (not among C02's configurations; C01 runs it): Model.MachineRv; c02_value_is_canon transfers to it on every "
+                 "input without a raw-token first key (c02_rv_value_is_canon_tokenfree); on a raw-token object the value is the nested "
+                 "text's value, not the denotation of the outer text (c01_rv_token_language)"],
     partial=["arbitrary_precision: an object whose first key is the private Number token and whose only value is a string holding a number "
              "is returned as that NUMBER, not as the object the text denotes (open finding C02-ap-private-number-token: a genuine "
              "deviation of the crate, reported by the specification; the faithful model reproduces it and c01_ap_token_language "
@@ -1056,7 +1091,7 @@ PROPS["C15"] = dict(
 )
 
 PROPS["C04"] = dict(
-    lean_targets=["SJ.Props.C04", "SJ.Props.C04Ap", "SJ.Audit.C04"],
+    lean_targets=["SJ.Props.C04", "SJ.Props.C04Ap", "SJ.Props.C04Rv", "SJ.Audit.C04"],
     configs=dict(quick=["d", "fr", "ap"], thorough=["d", "fr", "po", "ap", "rv"]),
     gen_keys=["ser.", "de.", "error."],
     rule="rtv: Values — a fixed corpus (boundary integers 0, +-1, +-2^53(+-1), i64::MIN/MAX, u64::MAX, powers of ten; every control "
@@ -1083,7 +1118,7 @@ PROPS["C04"] = dict(
     trusted_base=[KERNEL, TIE,
                   "hand-written models Model.Ser (serializer, tied by C03's correspondence) and Model.Machine/Model.Num (parser, tied by "
                   "C01/C02's correspondence; under arbitrary_precision the driver parses with Model.MachineAp, the machine + the private "
-                  "Number token reading); here their composition is run against the crate's own round trip on every generated Value",
+                  "Number token reading, under raw_value with Model.MachineRv, + the private RawValue token reading); here their composition is run against the crate's own round trip on every generated Value",
                   "itoa prints plain decimal digits; ryu prints finite floats as RFC 8259 numbers (ExtOK)"],
     assumptions=["itoa::Buffer::format prints the plain decimal digits of the integer (Ext.itoa = Spec.Number.decimal)",
                  "ryu::Buffer::format_finite prints an RFC 8259 number; that the configured parser maps this text back to the same double is "
@@ -1100,8 +1135,13 @@ PROPS["C04"] = dict(
              "first key in iteration order (Spec.PrivateToken.valueTokenFree) round-trips, compact and pretty, every source. The "
              "excluded Values do not round-trip on the crate - open finding C04-ap-private-number-token - and not on the model "
              "either: c04_ap_token_not_identity ({token:\"1\"} comes back as the number 1, {token:\"x\"} is rejected). "
-             "raw_value: the RawValue token is not modelled (open finding C04-rv-private-rawvalue-token, its signature covers the "
-             "model disagreements)",
+             "raw_value: for the faithful model Model.MachineRv (op rtv runs it when the configuration has rv: 0 disagreements) the "
+             "theorem is c04_rv_value (Props/C04Rv.lean): every well-formed Value in which no object has $serde_json::private::RawValue "
+             "as its first key in iteration order (Spec.PrivateTokenRv.valueRawTokenFree; with arbitrary_precision also valueTokenFree) "
+             "and whose floats round-trip (the hypothesis of c04_value) round-trips, compact and pretty, every source, every feature "
+             "combination (c04_rv_reads_back: on the written text MachineRv IS the machine). The excluded Values do not round-trip on "
+             "the crate - open finding C04-rv-private-rawvalue-token - nor on the model: c04_rv_token_not_identity ({token:\"[1]\"} "
+             "comes back as the array [1], {token:\"x\"} is rejected with the nested error, {token:\"null\"} comes back as null)",
              "typed clause: c04_typed_partial (compact) and c04_typed_pretty_partial (pretty, every whitespace indent) — for EVERY "
              "schema of the serialisable universe (bool, twelve integer widths incl. every 128-bit value, f64, f32, char, String, byte "
              "buffers, unit / unit struct, Option, newtype, Vec, tuples of any length, maps with every key kind, structs, enums with "
@@ -1424,9 +1464,9 @@ _add("C02", "partial", [
     "about float accuracy (C07: nearest-even under float_roundtrip, c07_all_sources; C08: 5 ulp in the default build)",
 ])
 _add("C04", "partial", [
-    "c04_value_ap / c04_reparse_ap and every c04_* theorem under arbitrary_precision / raw_value are theorems about the machine model, which "
+    "c04_value_ap / c04_reparse_ap and every c04_* theorem other than c04_ap_* / c04_rv_* are theorems about the machine model, which "
     "reads an object keyed by a private token as RFC 8259 does; the crate does not (open findings C04-ap-private-number-token, "
-    "C04-rv-private-rawvalue-token): WFValue does not exclude such keys",
+    "C04-rv-private-rawvalue-token): WFValue does not exclude such keys; c04_ap_value / c04_rv_value are the statements for the faithful models",
     "default build, 'f64 values that print as short literals round-trip': no theorem derives FloatsRoundTrip from c08_exact_short + "
     "RyuShortest for short outputs; the hypothesis is carried",
     "RyuShortest ext (hypothesis of c04_value_fr, c04_typed_fr, c07_roundtrip, ...) is a statement about the external printer ryu; no Lean "
